@@ -147,8 +147,6 @@ structure Inv (st0 : Index) (P0 : List Path) (ex : Option Path) (todo : List Pat
   /-- a processed plugin file has passed its status on -/
   closed : ∀ g, g ∈ acc.processed → ex ≠ some g → g ∈ acc.st.pluginFiles →
     ∀ t, t ∈ marksOf st0 g → t ∈ acc.st.pluginFiles
-  /-- no cached file is forgotten -/
-  cached : ∀ g, ahas acc.st.cache g = true → g ∈ acc.processed ∨ g ∈ todo ∨ g ∈ acc.rewalk
   /-- no plugin file is forgotten -/
   plug : ∀ g, g ∈ acc.st.pluginFiles → g ∈ acc.processed ∨ g ∈ todo ∨ g ∈ acc.rewalk ∨ g ∈ acc.news
   reach : ∀ g, g ∈ acc.st.pluginFiles → Reach st0 P0 g
@@ -171,8 +169,30 @@ theorem importStep_processed (mark : Bool) (acc : ScanAcc) (t : Path) : (importS
     then acc.processed.filter (fun g => g != t) else acc.processed := rfl
 
 theorem importStep_rewalkEq (mark : Bool) (acc : ScanAcc) (t : Path) : (importStep mark acc t).rewalk =
-    if (mark && !acc.st.pluginFiles.contains t && acc.processed.contains t && !acc.rewalk.contains t) = true
+    if (((mark && !acc.st.pluginFiles.contains t && acc.processed.contains t) ||
+        (!(importStep mark acc t).processed.contains t && ahas acc.st.cache t)) && !acc.rewalk.contains t) = true
     then acc.rewalk ++ [t] else acc.rewalk := rfl
+
+/-- `rewalk` only grows, by the target at most -/
+theorem importStep_rewalk_mono (mark : Bool) (acc : ScanAcc) (t : Path) :
+    (∀ x, x ∈ acc.rewalk → x ∈ (importStep mark acc t).rewalk) ∧
+    (((mark && !acc.st.pluginFiles.contains t && acc.processed.contains t) ||
+        (!(importStep mark acc t).processed.contains t && ahas acc.st.cache t)) = true →
+      t ∈ (importStep mark acc t).rewalk) := by
+  rw [importStep_rewalkEq]
+  generalize ((mark && !acc.st.pluginFiles.contains t && acc.processed.contains t) ||
+        (!(importStep mark acc t).processed.contains t && ahas acc.st.cache t)) = c
+  by_cases hc : acc.rewalk.contains t = true
+  · simp only [hc, Bool.not_true, Bool.and_false, Bool.false_eq_true, if_false]
+    exact ⟨fun x hx => hx, fun _ => by simpa using hc⟩
+  · have hc' : acc.rewalk.contains t = false := by simpa using hc
+    cases c with
+    | false =>
+      simp only [hc', Bool.not_false, Bool.and_true, Bool.false_eq_true, if_false]
+      exact ⟨fun x hx => hx, fun h => by cases h⟩
+    | true =>
+      simp only [hc', Bool.not_false, Bool.and_self, if_true]
+      exact ⟨fun x hx => List.mem_append_left _ hx, fun _ => by simp⟩
 
 theorem importStep_news (mark : Bool) (acc : ScanAcc) (t : Path) : (importStep mark acc t).news =
     if (!(importStep mark acc t).processed.contains t && !ahas acc.st.cache t && !acc.news.contains t) = true
@@ -216,37 +236,27 @@ theorem importStep_inv (st0 : Index) (P0 : List Path) (ex : Option Path) (todo :
         subst hab
         simp only [List.contains_eq_mem, decide_eq_false_iff_not] at h2
         exact h2 ha
+  obtain ⟨rw1, rw2⟩ := importStep_rewalk_mono mark acc t
   by_cases hm : (mark && !acc.st.pluginFiles.contains t) = true
   · -- the target becomes a plugin file
     have hmark : mark = true := by
       simp only [Bool.and_eq_true] at hm; exact hm.1
-    have htp : t ∉ acc.st.pluginFiles := by
-      simp only [Bool.and_eq_true, Bool.not_eq_true', List.contains_eq_mem, decide_eq_false_iff_not] at hm
-      exact hm.2
     obtain ⟨f0, hf0, ht0⟩ := hr hmark
+    have est : (importStep mark acc t).st = { acc.st with pluginFiles := acc.st.pluginFiles ++ [t] } := by
+      rw [importStep_st, if_pos hm]
+    have ecache : (importStep mark acc t).st.cache = acc.st.cache := by rw [est]
+    have epl : (importStep mark acc t).st.pluginFiles = acc.st.pluginFiles ++ [t] := by rw [est]
     by_cases hp : acc.processed.contains t = true
     · -- … after its imports were walked: it is walked again
-      have htproc : t ∈ acc.processed := by simpa using hp
       have hnotin : ¬ t ∈ acc.processed.filter (fun g => g != t) := by simp [List.mem_filter]
       have hfc : (acc.processed.filter (fun g => g != t)).contains t = false := by simpa using hnotin
-      have est : (importStep mark acc t).st = { acc.st with pluginFiles := acc.st.pluginFiles ++ [t] } := by
-        rw [importStep_st, if_pos hm]
       have epr : (importStep mark acc t).processed = acc.processed.filter (fun g => g != t) := by
         rw [importStep_processed, if_pos (by rw [hm, hp]; rfl)]
       obtain ⟨n1, n2, n3, n4⟩ := newsCase (!ahas acc.st.cache t && !acc.news.contains t)
         (importStep mark acc t).news (by rw [importStep_news, epr, hfc]; rfl) (by
           intro hc; simp only [Bool.and_eq_true, Bool.not_eq_true'] at hc; exact hc)
-      have erw : t ∈ (importStep mark acc t).rewalk ∧ ∀ x, x ∈ acc.rewalk → x ∈ (importStep mark acc t).rewalk := by
-        rw [importStep_rewalkEq, hm, hp]
-        by_cases hc : acc.rewalk.contains t = true
-        · simp only [hc, Bool.not_true, Bool.and_false, Bool.false_eq_true, if_false]
-          exact ⟨by simpa using hc, fun x hx => hx⟩
-        · have hc' : acc.rewalk.contains t = false := by simpa using hc
-          simp only [hc', Bool.not_false, Bool.and_self, if_true]
-          exact ⟨by simp, fun x hx => List.mem_append_left _ hx⟩
-      have ecache : (importStep mark acc t).st.cache = acc.st.cache := by rw [est]
-      have epl : (importStep mark acc t).st.pluginFiles = acc.st.pluginFiles ++ [t] := by rw [est]
-      refine ⟨⟨?_, ?_, ?_, ?_, ?_, ?_, n3⟩, ?_, ?_, ?_⟩
+      have htrw : t ∈ (importStep mark acc t).rewalk := rw2 (by rw [hm, hp]; rfl)
+      refine ⟨⟨?_, ?_, ?_, ?_, ?_, n3⟩, ?_, ?_, ?_⟩
       · rw [est]; exact same_setPlugin st0 acc.st _ h.same
       · intro g hg hex hgp x hx
         rw [epr] at hg
@@ -257,24 +267,15 @@ theorem importStep_inv (st0 : Index) (P0 : List Path) (ex : Option Path) (todo :
         · exact List.mem_append_left _ (h.closed g hg' hex hgp x hx)
         · simp only [List.mem_singleton] at hgp; exact absurd hgp hgt
       · intro g hg
-        rw [ecache] at hg
-        rw [epr]
-        by_cases hgt : g = t
-        · subst hgt; exact Or.inr (Or.inr erw.1)
-        · rcases h.cached g hg with hc | hc | hc
-          · exact Or.inl (mem_filter_ne hc hgt)
-          · exact Or.inr (Or.inl hc)
-          · exact Or.inr (Or.inr (erw.2 g hc))
-      · intro g hg
         rw [epl] at hg
         rw [epr]
         by_cases hgt : g = t
-        · subst hgt; exact Or.inr (Or.inr (Or.inl erw.1))
+        · subst hgt; exact Or.inr (Or.inr (Or.inl htrw))
         · rcases List.mem_append.mp hg with hg | hg
           · rcases h.plug g hg with hc | hc | hc | hc
             · exact Or.inl (mem_filter_ne hc hgt)
             · exact Or.inr (Or.inl hc)
-            · exact Or.inr (Or.inr (Or.inl (erw.2 g hc)))
+            · exact Or.inr (Or.inr (Or.inl (rw1 g hc)))
             · exact Or.inr (Or.inr (Or.inr (n1 g hc)))
           · simp only [List.mem_singleton] at hg; exact absurd hg hgt
       · intro g hg
@@ -289,18 +290,12 @@ theorem importStep_inv (st0 : Index) (P0 : List Path) (ex : Option Path) (todo :
     · -- … before its imports are walked
       have hp' : acc.processed.contains t = false := by simpa using hp
       have htproc : t ∉ acc.processed := by simpa using hp'
-      have est : (importStep mark acc t).st = { acc.st with pluginFiles := acc.st.pluginFiles ++ [t] } := by
-        rw [importStep_st, if_pos hm]
       have epr : (importStep mark acc t).processed = acc.processed := by
         rw [importStep_processed, hm, hp']; rfl
-      have erw : (importStep mark acc t).rewalk = acc.rewalk := by
-        rw [importStep_rewalkEq, hm, hp']; rfl
       obtain ⟨n1, n2, n3, n4⟩ := newsCase (!ahas acc.st.cache t && !acc.news.contains t)
         (importStep mark acc t).news (by rw [importStep_news, epr, hp']; rfl) (by
           intro hc; simp only [Bool.and_eq_true, Bool.not_eq_true'] at hc; exact hc)
-      have ecache : (importStep mark acc t).st.cache = acc.st.cache := by rw [est]
-      have epl : (importStep mark acc t).st.pluginFiles = acc.st.pluginFiles ++ [t] := by rw [est]
-      refine ⟨⟨?_, ?_, ?_, ?_, ?_, ?_, n3⟩, ?_, ?_, ?_⟩
+      refine ⟨⟨?_, ?_, ?_, ?_, ?_, n3⟩, ?_, ?_, ?_⟩
       · rw [est]; exact same_setPlugin st0 acc.st _ h.same
       · intro g hg hex hgp x hx
         rw [epr] at hg
@@ -309,25 +304,18 @@ theorem importStep_inv (st0 : Index) (P0 : List Path) (ex : Option Path) (todo :
         · exact List.mem_append_left _ (h.closed g hg hex hgp x hx)
         · simp only [List.mem_singleton] at hgp; subst hgp; exact absurd hg htproc
       · intro g hg
-        rw [ecache] at hg
-        rw [epr, erw]
-        exact h.cached g hg
-      · intro g hg
         rw [epl] at hg
-        rw [epr, erw]
+        rw [epr]
         rcases List.mem_append.mp hg with hg | hg
         · rcases h.plug g hg with hc | hc | hc | hc
           · exact Or.inl hc
           · exact Or.inr (Or.inl hc)
-          · exact Or.inr (Or.inr (Or.inl hc))
+          · exact Or.inr (Or.inr (Or.inl (rw1 g hc)))
           · exact Or.inr (Or.inr (Or.inr (n1 g hc)))
         · simp only [List.mem_singleton] at hg
           subst hg
           by_cases hc : ahas acc.st.cache g = true
-          · rcases h.cached g hc with hc | hc | hc
-            · exact absurd hc htproc
-            · exact Or.inr (Or.inl hc)
-            · exact Or.inr (Or.inr (Or.inl hc))
+          · exact Or.inr (Or.inr (Or.inl (rw2 (by rw [epr, hp', hc]; simp))))
           · by_cases hn : acc.news.contains g = true
             · exact Or.inr (Or.inr (Or.inr (n1 g (by simpa using hn))))
             · have hc' : ahas acc.st.cache g = false := by simpa using hc
@@ -346,21 +334,19 @@ theorem importStep_inv (st0 : Index) (P0 : List Path) (ex : Option Path) (todo :
     have hm' : (mark && !acc.st.pluginFiles.contains t) = false := by simpa using hm
     have est : (importStep mark acc t).st = acc.st := by rw [importStep_st, hm']; rfl
     have epr : (importStep mark acc t).processed = acc.processed := by rw [importStep_processed, hm']; rfl
-    have erw : (importStep mark acc t).rewalk = acc.rewalk := by rw [importStep_rewalkEq, hm']; rfl
     obtain ⟨n1, n2, n3, n4⟩ := newsCase (!acc.processed.contains t && !ahas acc.st.cache t && !acc.news.contains t)
       (importStep mark acc t).news (by rw [importStep_news, epr]) (by
         intro hc; simp only [Bool.and_eq_true, Bool.not_eq_true'] at hc; exact ⟨hc.1.2, hc.2⟩)
-    refine ⟨⟨?_, ?_, ?_, ?_, ?_, ?_, n3⟩, ?_, ?_, ?_⟩
+    refine ⟨⟨?_, ?_, ?_, ?_, ?_, n3⟩, ?_, ?_, ?_⟩
     · rw [est]; exact h.same
     · rw [est, epr]; exact h.closed
-    · rw [est, epr, erw]; exact h.cached
     · intro g hg
       rw [est] at hg
-      rw [epr, erw]
+      rw [epr]
       rcases h.plug g hg with hc | hc | hc | hc
       · exact Or.inl hc
       · exact Or.inr (Or.inl hc)
-      · exact Or.inr (Or.inr (Or.inl hc))
+      · exact Or.inr (Or.inr (Or.inl (rw1 g hc)))
       · exact Or.inr (Or.inr (Or.inr (n1 g hc)))
     · rw [est]; exact h.reach
     · intro x hx; rw [est]; exact n2 x hx
@@ -522,14 +508,7 @@ theorem roundStep_inv (st0 : Index) (P0 : List Path) (f : Path) (l : List Path) 
   by_cases hc : acc.processed.contains f = true
   · rw [if_pos hc]
     have hf : f ∈ acc.processed := by simpa using hc
-    refine ⟨⟨h.same, h.closed, ?_, ?_, h.reach, h.newsFresh, h.newsNodup⟩, fun g hg => hg⟩
-    · intro g hg
-      rcases h.cached g hg with hh | hh | hh
-      · exact Or.inl hh
-      · rcases List.mem_cons.mp hh with rfl | hh
-        · exact Or.inl hf
-        · exact Or.inr (Or.inl hh)
-      · exact Or.inr (Or.inr hh)
+    refine ⟨⟨h.same, h.closed, ?_, h.reach, h.newsFresh, h.newsNodup⟩, fun g hg => hg⟩
     · intro g hg
       rcases h.plug g hg with hh | hh | hh | hh
       · exact Or.inl hh
@@ -540,7 +519,7 @@ theorem roundStep_inv (st0 : Index) (P0 : List Path) (f : Path) (l : List Path) 
       · exact Or.inr (Or.inr (Or.inr hh))
   · rw [if_neg hc]
     have h1 : Inv st0 P0 (some f) l { acc with processed := acc.processed ++ [f] } := by
-      refine ⟨h.same, ?_, ?_, ?_, h.reach, h.newsFresh, h.newsNodup⟩
+      refine ⟨h.same, ?_, ?_, h.reach, h.newsFresh, h.newsNodup⟩
       · intro g hg hex hgp
         have hgf : g ≠ f := fun e => hex (by rw [e])
         have hg' : g ∈ acc.processed := by
@@ -548,13 +527,6 @@ theorem roundStep_inv (st0 : Index) (P0 : List Path) (f : Path) (l : List Path) 
           · exact hg
           · simp only [List.mem_singleton] at hg; exact absurd hg hgf
         exact h.closed g hg' (by intro e; cases e) hgp
-      · intro g hg
-        rcases h.cached g hg with hh | hh | hh
-        · exact Or.inl (List.mem_append_left _ hh)
-        · rcases List.mem_cons.mp hh with rfl | hh
-          · exact Or.inl (by simp)
-          · exact Or.inr (Or.inl hh)
-        · exact Or.inr (Or.inr hh)
       · intro g hg
         rcases h.plug g hg with hh | hh | hh | hh
         · exact Or.inl (List.mem_append_left _ hh)
@@ -564,7 +536,7 @@ theorem roundStep_inv (st0 : Index) (P0 : List Path) (f : Path) (l : List Path) 
         · exact Or.inr (Or.inr (Or.inl hh))
         · exact Or.inr (Or.inr (Or.inr hh))
     obtain ⟨r1, r2, r3, r4⟩ := importScanFile_inv st0 P0 f l _ h1
-    refine ⟨⟨r1.same, ?_, r1.cached, r1.plug, r1.reach, r1.newsFresh, r1.newsNodup⟩, r2⟩
+    refine ⟨⟨r1.same, ?_, r1.plug, r1.reach, r1.newsFresh, r1.newsNodup⟩, r2⟩
     intro g hg _ hgp t ht
     by_cases hgf : g = f
     · subst hgf
@@ -756,19 +728,11 @@ theorem importScan_closed (pfx : Path) (U : List Path) (stG st0 : Index) (P0 : L
         obtain ⟨a1, a2, a3⟩ := analyzeAll_same pfx st0 r.news r.st hri.same hri.newsFresh hri.newsNodup
         have hinv' : Inv st0 P0 none (r.news ++ r.rewalk)
             { news := [], re := r.re, st := r.news.foldl (analyzeNew pfx) r.st, processed := r.processed, rewalk := [] } := by
-          refine ⟨a1, ?_, ?_, ?_, ?_, ?_, List.nodup_nil⟩
+          refine ⟨a1, ?_, ?_, ?_, ?_, List.nodup_nil⟩
           · intro g hg hex' hgp t ht
             simp only at hg hgp ⊢
             rw [a2] at hgp ⊢
             exact hri.closed g hg hex' hgp t ht
-          · intro g hg
-            simp only at hg ⊢
-            rcases a3 g hg with hh | hh
-            · rcases hri.cached g hh with h1 | h1 | h1
-              · exact Or.inl h1
-              · cases h1
-              · exact Or.inr (Or.inl (List.mem_append_right _ h1))
-            · exact Or.inr (Or.inl (List.mem_append_left _ hh))
           · intro g hg
             simp only at hg ⊢
             rw [a2] at hg
@@ -798,21 +762,21 @@ end ScanC
 
 open ScanC ScanT in
 /-- **C14 / C08 (the plugin files the scan ends with are exactly the closure).** Start the import
-    scan on an index in which every cached file and every plugin file is among the files to check
-    (what `scan_workspace` does when no other document was analysed before it), with enough rounds.
+    scan on an index in which every plugin file is among the files to check (what `scan_workspace`
+    does: the entry-point modules were analysed by the virtualenv phase) - whatever else is cached
+    already, for instance documents opened in the editor before the scan - with enough rounds.
     Then a file ends up marked as a plugin file IF AND ONLY IF it can be reached from an initial
     plugin file by following star imports and `pytest_plugins` entries - chains of any length,
     diamonds, cycles. -/
 theorem C14_plugin_files_are_the_closure (pfx : Path) (U : List Path) (st : Index) (roots : List Path)
     (hdisk : ∀ k, ahas st.disk k = true → k ∈ U) (hcache : ∀ k, ahas st.cache k = true → k ∈ U)
     (hT : ∀ f, f ∈ roots → f ∈ U)
-    (hc : ∀ g, ahas st.cache g = true → g ∈ roots) (hp : ∀ g, g ∈ st.pluginFiles → g ∈ roots)
+    (hp : ∀ g, g ∈ st.pluginFiles → g ∈ roots)
     (m : Nat) (hm : 3 * U.length + 1 ≤ m) (g : Path) :
     g ∈ (Index.importScan pfx m st roots [] []).1.pluginFiles ↔ Reach st st.pluginFiles g := by
   have hinv : Inv st st.pluginFiles none roots { news := [], re := [], st := st, processed := [], rewalk := [] } := by
-    refine ⟨Same.rfl' st, ?_, ?_, ?_, fun g hg => Reach.base hg, ?_, List.nodup_nil⟩
+    refine ⟨Same.rfl' st, ?_, ?_, fun g hg => Reach.base hg, ?_, List.nodup_nil⟩
     · intro g hg; cases hg
-    · intro g hg; exact Or.inr (Or.inl (hc g hg))
     · intro g hg; exact Or.inr (Or.inl (hp g hg))
     · intro t ht; cases ht
   have hmu : mu U [] st.pluginFiles < m := by
@@ -833,13 +797,13 @@ open ScanC ScanT in
 theorem C08_plugin_files_order_independent (pfx : Path) (U : List Path) (st : Index) (roots roots' : List Path)
     (hdisk : ∀ k, ahas st.disk k = true → k ∈ U) (hcache : ∀ k, ahas st.cache k = true → k ∈ U)
     (hT : ∀ f, f ∈ roots → f ∈ U) (hperm : ∀ f, f ∈ roots ↔ f ∈ roots')
-    (hc : ∀ g, ahas st.cache g = true → g ∈ roots) (hp : ∀ g, g ∈ st.pluginFiles → g ∈ roots)
+    (hp : ∀ g, g ∈ st.pluginFiles → g ∈ roots)
     (m m' : Nat) (hm : 3 * U.length + 1 ≤ m) (hm' : 3 * U.length + 1 ≤ m') (g : Path) :
     g ∈ (Index.importScan pfx m st roots [] []).1.pluginFiles ↔
     g ∈ (Index.importScan pfx m' st roots' [] []).1.pluginFiles := by
-  rw [C14_plugin_files_are_the_closure pfx U st roots hdisk hcache hT hc hp m hm g,
+  rw [C14_plugin_files_are_the_closure pfx U st roots hdisk hcache hT hp m hm g,
     C14_plugin_files_are_the_closure pfx U st roots' hdisk hcache (fun f hf => hT f ((hperm f).mpr hf))
-      (fun g hg => (hperm g).mp (hc g hg)) (fun g hg => (hperm g).mp (hp g hg)) m' hm' g]
+      (fun g hg => (hperm g).mp (hp g hg)) m' hm' g]
 
 /-! ### the hypotheses are met by a chain that the old loop got wrong -/
 
@@ -864,6 +828,10 @@ def exRoots : List Path := [["lvl2.py"], ["lvl1.py"], ["plugin.py"]]
     every module of the chain ends up a plugin file (a test of the definitions) -/
 example : (importScan [] 10 exIndex exRoots [] []).1.pluginFiles = [["plugin.py"], ["lvl1.py"], ["lvl2.py"]] := by decide
 
+/-- only the entry module is among the files to check; the others are cached already (opened in
+    the editor before the scan): they are walked all the same (a test of the definitions) -/
+example : (importScan [] 10 exIndex [["plugin.py"]] [] []).1.pluginFiles = [["plugin.py"], ["lvl1.py"], ["lvl2.py"]] := by decide
+
 theorem ex_keys (l : List (Path × Version)) (hl : l = exIndex.disk) (k : Path) (h : ahas l k = true) : k ∈ exRoots := by
   subst hl
   simp only [ahas, exIndex, List.any_cons, List.any_nil, Bool.or_false, Bool.or_eq_true, beq_iff_eq] at h
@@ -872,7 +840,7 @@ theorem ex_keys (l : List (Path × Version)) (hl : l = exIndex.disk) (k : Path) 
 /-- the closure theorem applies to it: its hypotheses are satisfiable -/
 example (g : Path) : g ∈ (importScan [] 10 exIndex exRoots [] []).1.pluginFiles ↔ Reach exIndex exIndex.pluginFiles g :=
   C14_plugin_files_are_the_closure [] exRoots exIndex exRoots (ex_keys _ rfl) (ex_keys _ rfl) (fun _ h => h)
-    (ex_keys _ rfl) (by intro g hg; simp only [exIndex, List.mem_singleton] at hg; subst hg; decide) 10 (by decide) g
+    (by intro g hg; simp only [exIndex, List.mem_singleton] at hg; subst hg; decide) 10 (by decide) g
 
 end ScanC
 
